@@ -1,16 +1,14 @@
 package engine
 
 import (
-	"context"
 	"encoding/json"
 	"io"
-	"net"
-	"net/http"
 	"strings"
 	"time"
 
 	"github.com/quic-go/quic-go"
 	"github.com/zishang520/engine.io/v2/transports"
+	"github.com/zishang520/engine.io/v2/internal/zzmodels"
 	verif "github.com/zishang520/engine.io/v2/internal/zzverif"
 	wt "github.com/zishang520/webtransport-go"
 )
@@ -43,26 +41,6 @@ func (s *c09Stream) SetWriteDeadline(time.Time) error { return nil }
 func (s *c09Stream) SetReadDeadline(time.Time) error  { return nil }
 func (s *c09Stream) SetDeadline(time.Time) error      { return nil }
 
-var c09TheStream *c09Stream
-
-//verif:model (*github.com/zishang520/webtransport-go.Server).Upgrade
-func mWtServerUpgrade(s *wt.Server, w http.ResponseWriter, r *http.Request) (*wt.Session, error) {
-	return &wt.Session{}, nil
-}
-
-type c09Addr struct{}
-
-func (c09Addr) Network() string { return "udp" }
-func (c09Addr) String() string  { return "192.0.2.7:4433" }
-
-//verif:model (*github.com/zishang520/webtransport-go.Session).RemoteAddr
-func mWtRemoteAddr(s *wt.Session) net.Addr { return c09Addr{} }
-
-//verif:model (*github.com/zishang520/webtransport-go.Session).AcceptStream
-func mWtAcceptStream(s *wt.Session, ctx context.Context) (wt.Stream, error) {
-	return c09TheStream, nil
-}
-
 // c09DecodeFact is the library fact the path depends on, computed in both worlds (the
 // json.Decoder model symbolically, the real decoder natively) and compared by translator
 // validation: does decoding the handshake payload fail, and does it leave the pointer nil?
@@ -89,7 +67,7 @@ func VerifH_C09_wt_handshake_frame() {
 		return // the entry point itself needs a QUIC session
 	}
 	frame := append([]byte{byte(len(pl))}, pl...) // one text frame
-	c09TheStream = &c09Stream{in: frame}
+	zzmodels.AcceptedStream = &c09Stream{in: frame}
 	ctx, _ := newCtx("CONNECT", "/engine.io/")
 	ctx.Request().Proto = transports.WEBTRANSPORT
 	w.ps.OnWebTransportSession(ctx, nil)
